@@ -42,8 +42,13 @@ def gsLoop (A : List (List α)) (b : List α) (atol : α) : Nat → Bool → Lis
       gsLoop A b atol fuel (moved atol x' x) x'
     else x
 
-/-- `gauss_seidel(A, b, atol, maxiter)`; the first test is `2*atol > atol` -/
+/-- `gauss_seidel(A, b, atol, maxiter)` as repaired (D22b): `adiff = numpy.inf` before the loop, so the first
+    test `numpy.any(adiff > atol)` is true for EVERY tolerance, `atol = 0` included -/
 def gaussSeidel (A : List (List α)) (b : List α) (atol : α) (maxiter : Nat) : List α :=
+  gsLoop A b atol maxiter true (b.map (fun _ => (0 : α)))
+
+/-- the pre-repair function: `adiff = 2*atol`, first test `2*atol > atol` (false for `atol ≤ 0`: no sweep) -/
+def gaussSeidelPrerepair (A : List (List α)) (b : List α) (atol : α) (maxiter : Nat) : List α :=
   gsLoop A b atol maxiter (decide (atol < atol + atol)) (b.map (fun _ => (0 : α)))
 
 /-- number of sweeps the loop performs (for the evidence and the "stopped by tolerance" hypothesis) -/
@@ -74,9 +79,34 @@ def zty (Z : List (List α)) (p : Nat) (y : List α) : List α := (List.range p)
 /-- `y - y.mean()` -/
 def center (y : List α) : List α := y.map (fun v => v - mean y)
 
-/-- `rrBLUP_ML0`: returns `(betahat, uhat)`; `ridge` = varE/varU chosen by the ML step (oracle) -/
-def ml0 (y : List α) (Z : List (List α)) (p : Nat) (ridge atol : α) (maxiter : Nat) : α × List α :=
-  (mean y, gaussSeidel (ztzPlusRidge Z p ridge) (zty Z p (center y)) atol maxiter)
+/-- larger of two (numpy `max` of a pair) -/
+def maxv (a b : α) : α := if a < b then b else a
+
+/-- `numpy.abs(Zty - ZtZplI.dot(uhat)).max()` (0 for an empty system) -/
+def residMax (A : List (List α)) (b u : List α) : α :=
+  (List.zipWith (fun r bi => absv (bi - dot r u)) A b).foldl maxv 0
+
+/-- `numpy.abs(ZtZplI).sum(1).max()` -/
+def rowAbsMax (A : List (List α)) : α := (A.map (fun r => (r.map absv).sum)).foldl maxv 0
+
+/-- the solve step of the repaired `rrBLUP_ML0` (D22): keep the Gauss–Seidel iterate `u` when
+    `resid <= 2*gsatol*max_i sum_j |A_ij|`, otherwise the direct solution `solve A b`
+    (`numpy.linalg.solve`, entered through its contract `A x = b`) -/
+def solveStep (solve : List (List α) → List α → List α) (A : List (List α)) (b : List α) (atol : α)
+    (u : List α) : List α :=
+  if (atol + atol) * rowAbsMax A < residMax A b u then solve A b else u
+
+/-- `rrBLUP_ML0` as repaired (D22 + D22b): returns `(betahat, uhat)`; `ridge` = varE/varU chosen by the ML
+    step (oracle); `solve` = the direct solver used when Gauss–Seidel stopped far from the solution -/
+def ml0 (solve : List (List α) → List α → List α) (y : List α) (Z : List (List α)) (p : Nat)
+    (ridge atol : α) (maxiter : Nat) : α × List α :=
+  let A := ztzPlusRidge Z p ridge
+  let b := zty Z p (center y)
+  (mean y, solveStep solve A b atol (gaussSeidel A b atol maxiter))
+
+/-- the pre-repair `rrBLUP_ML0`: the Gauss–Seidel iterate as it is, whatever its residual -/
+def ml0Prerepair (y : List α) (Z : List (List α)) (p : Nat) (ridge atol : α) (maxiter : Nat) : α × List α :=
+  (mean y, gaussSeidelPrerepair (ztzPlusRidge Z p ridge) (zty Z p (center y)) atol maxiter)
 
 /-- penalised least-squares criterion of the fitted model: `‖y - mean - Z u‖² + ridge ‖u‖²` -/
 def psse (y : List α) (Z : List (List α)) (ridge : α) (u : List α) : α :=
